@@ -236,7 +236,7 @@ def mc_engine(work, rep, tier):
     """TLC on Engine.tla over the abstract game: every sequence of public calls up to a bound; the variant in
     which TakeBack forgets to halt the search must be rejected."""
     quick = tier == "quick"
-    props = ["AnalyzeIffFree", "HaltIffHeld", "ErrorKeepsBoard", "OnlyAnalyzeLaunches", "SearchLeavesBoard"]
+    props = ["AnalyzeIffFree", "HaltIffHeld", "ErrorKeepsBoard", "OnlyAnalyzeLaunches", "SearchLeavesBoard", "TableOnlyAtReset", "LimitFixedAtLaunch"]
     cfg = vlib.cfg_text(constants={"MaxCalls": 6 if quick else 8, "HaltOnMutate": "TRUE"}, invariants=["SearchesCurrent", "NoLeak"], properties=props)
     r = vlib.tlc(work, "MCEngine", cfg, workers=8, timeout=1500, heap="4g", name="MCEngine", coverage=True)
     vlib.need_tlc_ok(r, "MCEngine")
@@ -260,7 +260,7 @@ def engine_api(work, vh, rep, prop, seed, tier):
         trace = work.path("engapi%d.ndjson" % i)
         vlib.run_harness(work, vh, ["ucipos", "-api", "-seed", seed * 100 + 90 + i, "-n", 60 if quick else 2500, "-cmds", 5 if i % 2 == 0 else 8, "-out", trace], timeout=3000)
         r = vlib.validate_trace(work, "TraceUciPos", [prop], trace, timeout=3300, heap="2g" if quick else "4g")
-        r.stats = {"engine-api:" + k: sum(1 for line in open(trace) if '"kind":"%s"' % k in line) for k in ("reset", "move", "takeback", "analyze", "halt")}
+        r.stats = {"engine-api:" + k: sum(1 for line in open(trace) if '"kind":"%s"' % k in line) for k in ("reset", "move", "takeback", "analyze", "halt", "setdepth", "sethash")}
         r.stats["engine-api:analysis-ended-by-itself"] = sum(1 for line in open(trace) if '"kind":"analyze"' in line and '"closed":-1' not in line and '"err":0' in line)
         r.stats["engine-api:analysis-kept-running"] = sum(1 for line in open(trace) if '"kind":"analyze"' in line and '"closed":-1' in line and '"err":0' in line)
         return r
@@ -268,7 +268,7 @@ def engine_api(work, vh, rep, prop, seed, tier):
     for r in ares:
         rep.counters(r.stats)
     vlib.absorb_trace_results(rep, ares)
-    require(rep, ["engine-api:reset", "engine-api:move", "engine-api:takeback", "engine-api:analyze", "engine-api:halt",
+    require(rep, ["engine-api:reset", "engine-api:move", "engine-api:takeback", "engine-api:analyze", "engine-api:halt", "engine-api:setdepth", "engine-api:sethash",
                   "engine-api:analysis-ended-by-itself", "engine-api:analysis-kept-running"], prop)
 
 
@@ -604,6 +604,14 @@ def c11(work, tier, seed):
         jobs += [("c11m%d" % i, ["-mode", "c11", "-mates", "-seed", seed * 100 + 50 + i, "-n", 50, "-depth", 5, "-cfgs", "hash,morlock,qshash", "-limit", 150000]) for i in range(12)]
     search_traces(work, vh, rep, ["C11"], jobs)
     require(rep, ["tree", "search", "note:tree|nodraws=TRUE"], "C11")
+    # the table as a driver uses it: the same console session (new game, moves, analyses, take-backs, deeper
+    # analyses of the position before) with `hash 1` and with `nohash`
+    ctrace = work.path("consolett.ndjson")
+    vlib.run_harness(work, vh, ["console", "-probe", "transparency", "-seed", seed, "-n", 60 if tier == "quick" else 3000, "-out", ctrace], timeout=3000)
+    cr = vlib.validate_trace(work, "TraceSearch", ["C11"], ctrace, timeout=3000, heap="2g" if tier == "quick" else "4g")
+    rep.counters({"console-sessions-with-and-without-table": cr.nlines})
+    vlib.absorb_trace_results(rep, [cr])
+    require(rep, ["console-sessions-with-and-without-table"], "C11")
     rep.assumptions = ["evaluations are position-determined (material, hash-derived test evaluator); dumps are of real positions, draws by repetition/fifty-move inside the tree make a dump ineligible only through the reference value (they are part of it)",
                        "table sizes 32 B (one slot), 64 B, 4 KiB, 1 MiB; scenarios: iterative deepening, same depth twice, mixed depths on one table"]
     return rep.finish(work)
